@@ -422,3 +422,36 @@ def corpus_multiple_same(repo):
         root, '**', 'multiple_same_event_AND*.puml'), recursive=True))
     return [(os.path.relpath(f, root), dsl.parse_puml(open(f).read()))
             for f in files if 'BCNT' not in open(f).read()]
+
+
+def stretch(defn, length):
+    """every event of a definition replaced by a chain of `length` events
+    (X -> X1 .. Xlength); the single event of a break branch is kept, so that
+    the result is the same block structure with long sequences"""
+    def seq(s, in_break):
+        out = []
+        for it in s:
+            if it[0] == 'ev':
+                if in_break:
+                    out.append(it)
+                else:
+                    out += [('ev', f"{it[1]}{i}")
+                            for i in range(1, length + 1)]
+            elif it[0] in ('and', 'or', 'xor'):
+                out.append((it[0], tuple(
+                    seq(b, it[0] == 'xor' and b and b[-1] == ('break',))
+                    for b in it[1])))
+            elif it[0] == 'loop':
+                out.append(('loop', seq(it[1], False)))
+            else:
+                out.append(it)
+        return tuple(out)
+    return seq(defn, False)
+
+
+def stretched_family(nmax, length):
+    """long-sequence versions of the small definitions: distances between
+    fork, merge, loop start and loop end grow with `length` while the block
+    structure stays that of F_nmax"""
+    return [stretch(d, length) for d in F(nmax)
+            if any(it[0] != 'ev' for it in d)]
